@@ -11,12 +11,15 @@
     specdump <i> <op> <args…>            -> Repr of the state the oracle expects
     model <i> <variant> <op> <args…>     -> <digest-after> <result | error tag>      Model.Api, instance untouched;
                                             variant: letters l (LED decode as shipped), p (port state as shipped) or -
+    domain <i> <op> <args…>              -> <0|1> <0|1>   arguments inside `Call.InRange`, instance inside `BmcState.Wf`
+                                            (executable checks of Model/Api/Domain.lean, proved sound in Lemmas/ApiDomain.lean)
     modelreq <variant> <op> <args…>      -> <netfn> <lun> <cmd> <hex> | <error tag>  the request the model puts on the wire
     ops                                  -> names of the operations that have a model
 -/
 import PyIpmi.Base.Proto
 import PyIpmi.Spec.Bmc
 import PyIpmi.Model.Api.Ops
+import PyIpmi.Model.Api.Domain
 open PyIpmi PyIpmi.Proto PyIpmi.Spec.Bmc
 
 /-! ### random conforming states -/
@@ -443,6 +446,10 @@ def step (st : Insts) (line : String) : Insts × String :=
       match PyIpmi.Model.Api.runModelV (variant.contains 'l') (variant.contains 'p') c s with
       | (s', .ok r) => (st, digest s' ++ " " ++ showResult r)
       | (s', e) => (st, digest s' ++ " " ++ e.tag)
+    | _, _ => (st, "bad-op")
+  | "domain" :: i :: op :: args =>
+    match (pNat i).bind (st[·]?), parseCall op args with
+    | some s, some c => (st, sb (inRangeB c) ++ " " ++ sb (wfB s))
     | _, _ => (st, "bad-op")
   | "modelreq" :: variant :: op :: args =>
     match parseCall op args with
